@@ -1709,6 +1709,13 @@ func stepCandidate(r *raft, m *pb.Message) error {
 			if r.state == StatePreCandidate {
 				r.campaign(campaignElection)
 			} else {
+				if !r.trk.Votes[r.id] {
+					// Our own vote is recorded only once the term and vote have
+					// been persisted (the self-addressed MsgVoteResp is released
+					// after the append). Do not lead a term that a restart would
+					// not remember; the transition fires on that response.
+					return nil
+				}
 				r.becomeLeader()
 				r.bcastAppend()
 			}
